@@ -7,6 +7,7 @@ package netpoll
 // NewReader / NewWriter / NewIOReader / NewIOWriter; op lines + reply lines for the Lean adapter model.
 
 import (
+	"bytes"
 	"bufio"
 	"errors"
 	"flag"
@@ -114,7 +115,15 @@ func vClassify(err error) string {
 	}
 }
 
+// a zero-copy result handed out by a reader adapter and not released yet: it must keep its content until Release
+type vHeldRes struct {
+	p    []byte
+	snap []byte
+	what string
+}
+
 type vAdapters struct {
+	held map[int][]vHeldRes
 	zr   map[int]*zcReader
 	src  map[int]*vSrc
 	zw   map[int]*zcWriter
@@ -152,15 +161,43 @@ func (a *vAdapters) exec(toks []string) (reply string) {
 			return "ok"
 		}
 		r, s := a.zr[id], a.src[id]
+		hold := func(p []byte, err error) {
+			if err == nil && len(p) > 0 {
+				if a.held == nil {
+					a.held = map[int][]vHeldRes{}
+				}
+				a.held[id] = append(a.held[id], vHeldRes{p: p, snap: append([]byte(nil), p...), what: fmt.Sprintf("%s(%s)", op, toks[3])})
+			}
+		}
+		changed := func() string {
+			for _, h := range a.held[id] {
+				if !bytes.Equal(h.p, h.snap) {
+					return "HELD-CHANGED result of " + h.what + " changed before Release (after " + strings.Join(toks[2:], " ") + ")"
+				}
+			}
+			return ""
+		}
+		defer func() {
+			// every result handed out earlier and not yet released still reads the same
+			if op == "rel" {
+				delete(a.held, id) // released memory may be recycled (and is poisoned by the harness allocator)
+				return
+			}
+			if c := changed(); c != "" && reply != "panic" {
+				reply = c
+			}
+		}()
 		switch op {
 		case "next":
 			p, err := r.Next(atoi(toks[3]))
 			res = vBytesRes(p)
 			set(err)
+			hold(p, err)
 		case "peek":
 			p, err := r.Peek(atoi(toks[3]))
 			res = vBytesRes(p)
 			set(err)
+			hold(p, err)
 		case "skip":
 			set(r.Skip(atoi(toks[3])))
 		case "rbin":
@@ -179,6 +216,7 @@ func (a *vAdapters) exec(toks []string) (reply string) {
 			p, err := r.Until(byte(atoi(toks[3])))
 			res = vBytesRes(p)
 			set(err)
+			hold(p, err)
 		case "rel":
 			set(r.Release())
 		case "len":
